@@ -37,6 +37,10 @@ def make_flag(vals: list, alias: bool):
     return enum.Flag("F", members)
 
 
+class OtherFlag(enum.Flag):
+    Z = 1
+
+
 def _flat(e: BaseException):
     if isinstance(e, BaseExceptionGroup):
         for s in e.exceptions:
@@ -73,7 +77,10 @@ def run_exact(case: dict, out: dict) -> None:
     for dt in (DebugTrail.ALL, DebugTrail.DISABLE):
         out["runs"] += 1
         try:
-            r = Retort(debug_trail=dt)
+            from adaptix import flag_by_exact_value
+            # the builtin recipe / the provider named explicitly, bound to the class among several predicates
+            preds = [None, (), (cls,), (OtherFlag, cls)][(len(ints) + 2 * case["alias"] + (dt is DebugTrail.ALL)) % 4]
+            r = Retort(debug_trail=dt) if preds is None else Retort(recipe=[flag_by_exact_value(*preds)], debug_trail=dt)
             loader, dumper = r.get_loader(cls), r.get_dumper(cls)
             created = True
         except ProviderNotFoundError:
@@ -149,7 +156,8 @@ def run_names(case: dict, seed: int, out: dict) -> None:
     for dt in (DebugTrail.ALL, DebugTrail.DISABLE):
         out["runs"] += 1
         try:
-            r = Retort(recipe=[flag_by_member_names(allow_single_value=o["single"], allow_duplicates=o["dups"], allow_compound=o["compound"],
+            preds = [(), (cls,), (OtherFlag, cls), (cls, OtherFlag)][rng.randrange(4)]
+            r = Retort(recipe=[flag_by_member_names(*preds, allow_single_value=o["single"], allow_duplicates=o["dups"], allow_compound=o["compound"],
                                                     name_style=style, map=mp)], debug_trail=dt)
             loader, dumper = r.get_loader(cls), r.get_dumper(cls)
         except Exception as e:  # noqa: BLE001
@@ -262,9 +270,12 @@ def enum_classes() -> dict:
 
 
 def run_enums(ctx: Ctx) -> None:
-    from adaptix import DebugTrail, NameStyle, Retort, enum_by_exact_value, enum_by_name, enum_by_value
+    from adaptix import DebugTrail, NameStyle, P, Retort, enum_by_exact_value, enum_by_name, enum_by_value
     classes = enum_classes()
     n = 0
+
+    class Unrelated(enum.Enum):
+        U = "u"
 
     def add(prov, cname, what, detail):
         ctx.violation({"what": what, "provider": prov, "class": cname}, f"{prov} on {cname}: {detail}", {"class": cname, "provider": prov, "detail": detail})
@@ -280,6 +291,15 @@ def run_enums(ctx: Ctx) -> None:
             provs.append(("enum_by_value(int)", [enum_by_value(cls, tp=int)], lambda m: m.value))
         if cname == "StrMix":
             provs.append(("enum_by_value(str)", [enum_by_value(cls, tp=str)], lambda m: m.value))
+        # the same providers bound to predicates ("each representation provider" is a function of *preds): the class itself, and
+        # the class among several predicates - the provider serves exactly the listed classes, for every request
+        for other in (Unrelated,):
+            for tag, preds in (("(cls)", (cls,)), ("(Other, cls)", (other, cls)), ("(cls, Other)", (cls, other)), ("(P[cls] | P.zz, Other)", (P[cls] | P.zz, other))):
+                provs.append((f"enum_by_exact_value{tag}", [enum_by_exact_value(*preds), enum_by_name()], lambda m: m.value))
+                provs.append((f"enum_by_name{tag}", [enum_by_name(*preds), enum_by_exact_value()], lambda m: m.name))
+                provs.append((f"enum_by_name{tag}(UPPER_SNAKE)", [enum_by_name(*preds, name_style=NameStyle.UPPER_SNAKE)], lambda m: m.name.upper()))
+                if cname in ("IntMix", "StrMix"):
+                    provs.append((f"enum_by_value{tag}", [enum_by_value(*preds, tp=int if cname == "IntMix" else str), enum_by_name()], lambda m: m.value))
         for pname, recipe, rep in provs:
             for dt in (DebugTrail.ALL, DebugTrail.DISABLE):
                 n += 1
@@ -309,7 +329,7 @@ def run_enums(ctx: Ctx) -> None:
                 valid = [rep(m) for m in canon]
                 for cand in ["nope", 99, None, 1.5, [1], "ONE", "A", "B", 1, "1", 0, "c", "x", (1, 2), [1, 2]]:
                     is_rep = any(type(cand) is type(v) and cand == v for v in valid) or (
-                        pname in ("enum_by_exact_value", "default") and any(_eq_hash(cand, v) for v in valid))
+                        (pname.startswith("enum_by_exact_value") or pname == "default") and any(_eq_hash(cand, v) for v in valid))
                     try:
                         v = loader(cand)
                         if not is_rep and not (pname.startswith("enum_by_value") and dt):   # by-value loaders coerce through tp
